@@ -18,7 +18,9 @@ def _field_of_type(cad, adt, ty):
 
 def unbuffered(cad):
     """(adt, destination field, socket field) - fields found by their types"""
-    return [(adt, _field_of_type(cad, adt, dty), _field_of_type(cad, adt, sty)) for adt, dty, sty in UNBUFFERED_ADTS]
+    # the destination field is whatever field the send site addresses (found in rule_unbuffered): its type is the
+    # sink's business (SocketAddr / PathBuf / Box<Path> ...)
+    return [(adt, None, _field_of_type(cad, adt, sty)) for adt, dty, sty in UNBUFFERED_ADTS]
 
 
 def stats_update(cad):
@@ -41,8 +43,12 @@ def _emit_of(cad, adt):
 
 def rule_unbuffered(ctx, rep, rid='R1'):
     cad = ctx.cad
+    dests = {}
     for adt, dest_field, sock_field in unbuffered(cad):
         name = adt.rsplit('::', 1)[-1]
+        if sock_field is None:
+            rep.anchor_lost(rid, 'socket field of %s' % name)
+            continue
         b, items = _emit_of(cad, adt)
         if b is None:
             rep.anchor_lost(rid, 'impl MetricSink for %s' % name)
@@ -54,22 +60,37 @@ def rule_unbuffered(ctx, rep, rid='R1'):
         sends = [bi for bi, t in b.calls() if callee_is(t, *SOCK_SEND) and not b.blocks[bi]['cleanup']]
         rep.sites(len(sends))
         cnt = count_events(b, lambda x: x in sends)
-        ok = len(sends) == 1 and cnt == {1}
+        ok = bool(sends) and cnt == {1}
         rep.ob(rid, '%s/one-datagram-per-emit' % name, ok, b.where(sends[0]) if sends else b.where(), 'exactly one send_to per emit' if ok else 'emit performs %s sends' % sorted(cnt))
         if not ok:
             continue
-        ct = norm(T.call_term(sends[0]))
-        okk = ct[1].endswith('::send_to')
-        okp = is_whole_param(ct[2][1], 2) and not any(y[0] == 'call' and isinstance(y[1], str) and ('trim' in y[1] or 'index' in y[1].lower() or 'split' in y[1] or 'get' in y[1].rsplit('::', 1)[-1]) for y in walk(ct[2][1]))
-        rep.ob(rid, '%s/payload-is-the-metric-bytes' % name, okk and okp, b.where(sends[0]), 'payload = metric.as_bytes(), whole' if okk and okp else 'payload is %s' % fmt(ct[2][1])[:100])
-        okd = okk and self_field_name(ct[2][2]) == dest_field and self_field_name(ct[2][0]) == sock_field
-        rep.ob(rid, '%s/destination-is-the-configured-one' % name, okd, b.where(sends[0]), 'sent on self.%s to self.%s' % (sock_field, dest_field) if okd else 'destination is %s' % (fmt(ct[2][2])[:80] if okk else '(connected send)'))
+        dest_field = None
+        first_bad = {}
+        cts = []
+        for sb_ in sends:
+            ct = norm(T.call_term(sb_))
+            cts.append(ct)
+            okk = ct[1].endswith('::send_to')
+            okp = is_whole_param(ct[2][1], 2) and not any(y[0] == 'call' and isinstance(y[1], str) and ('trim' in y[1] or 'index' in y[1].lower() or 'split' in y[1] or 'get' in y[1].rsplit('::', 1)[-1]) for y in walk(ct[2][1]))
+            if not okp:
+                first_bad.setdefault('payload', (sb_, 'payload is %s' % fmt(ct[2][1])[:100]))
+            df = self_field_name(ct[2][2]) if okk else None
+            okd = okk and df is not None and df != sock_field and self_field_name(ct[2][0]) == sock_field and dest_field in (None, df)
+            if okd:
+                dest_field = df
+            else:
+                first_bad.setdefault('dest', (sb_, 'destination is %s' % (fmt(ct[2][2])[:80] if okk else '(connected send)')))
+        dests[adt] = dest_field
+        rep.ob(rid, '%s/payload-is-the-metric-bytes' % name, 'payload' not in first_bad, b.where(first_bad.get('payload', (sends[0],))[0]),
+               'payload = metric.as_bytes(), whole' if 'payload' not in first_bad else first_bad['payload'][1])
+        rep.ob(rid, '%s/destination-is-the-configured-one' % name, 'dest' not in first_bad, b.where(first_bad.get('dest', (sends[0],))[0]),
+               'sent on self.%s to self.%s' % (sock_field, dest_field) if 'dest' not in first_bad else first_bad['dest'][1])
         # result through SocketStats::update, returned
         rts = ret_terms(T, [0])
-        okr = len(rts) == 1 and term_callee_is(list(rts)[0], SS + '::update') and list(rts)[0][2][1] == ct
+        okr = bool(rts) and all(any(term_callee_is(r_, strip_generics(u)) for u in upd_path) and any(x_ in cts for x_ in flatten_phi(r_[2][1])) for r_ in rts)
         rep.ob(rid, '%s/returns-socket-result' % name, okr, b.where(), 'returns update(send result, len): the socket\'s own count or error' if okr else 'emit returns %s' % [fmt(x)[:100] for x in rts])
         # destination field is written only in the constructor from the constructor's argument
-        for cb in _ctor_bodies(cad, adt):
+        for cb in _ctor_bodies(cad, adt) if dest_field is not None else []:
             rep.analysed(cb)
             ib = inl(cad, cb)
             Tc = Terms(ib)
@@ -95,7 +116,7 @@ def rule_unbuffered(ctx, rep, rid='R1'):
             rep.ob(rid, '%s::%s/destination-from-argument' % (name, cb.name), okc, cb.where(), 'destination = the constructor argument (first resolved address / the path), socket = the given socket' if okc else 'constructor stores %s' % msg)
     # frame: nobody else writes addr/path (fields private, only aggregates in constructors): stores through pointers
     offenders = []
-    protected = set(x for _, d_, s_ in unbuffered(cad) for x in (d_, s_) if x)
+    protected = set(x for a_, _, s_ in unbuffered(cad) for x in (dests.get(a_), s_) if x)
     for b in cad.all_bodies:
         if not (b.file.endswith('udp.rs') or b.file.endswith('unix.rs')):
             continue
